@@ -499,6 +499,32 @@ impl Check for C09 {
             ),
             "tokens" => {
                 let max_len = tier.pick(3, 4);
+                if shard == 0 {
+                    // nests just beyond each format's depth limit, no format named:
+                    // a candidate that gives up on depth is skipped like any other
+                    let mut deep: Vec<Vec<u8>> = vec![];
+                    for d in [1025usize, 1100] {
+                        let mut a = vec![0x91u8; d];
+                        a.push(0xc0);
+                        deep.push(a);
+                        let mut m = vec![];
+                        for _ in 0..d {
+                            m.extend_from_slice(&[0x81, 0xa1, b'k']);
+                        }
+                        m.push(0xc0);
+                        deep.push(m);
+                    }
+                    deep.push([vec![b'['; 129], vec![b']'; 129]].concat());
+                    deep.push([vec![b'['; 200], vec![b']'; 200]].concat());
+                    for bytes in deep {
+                        for sched in [Sched::Full, Sched::Fixed(1)] {
+                            if let Err(m) = check_bytes(&bytes, "beyond_depth_limit", &sched, rec) {
+                                rec.fail(m, case_json("tokens", &bytes, None, &sched, None));
+                                return;
+                            }
+                        }
+                    }
+                }
                 for fmt in FORMATS {
                     let total = token_seq_count(fmt, max_len);
                     let mut idx = shard as u64;
